@@ -468,7 +468,7 @@ func thorough(pr *rules.Property, base *core.Report, repo string, extra map[stri
 		}(c)
 	}
 	// metamorphic negative controls: the whole tree rewritten by a behaviour-preserving transformation
-	for _, kind := range []string{"commute", "ifelse", "rename", "parens", "swtoif", "derange", "elseafter", "renamefn", "renamety", "renamefld", "renamevar", "renameexp"} {
+	for _, kind := range []string{"commute", "ifelse", "rename", "parens", "swtoif", "derange", "elseafter", "renamefn", "renamety", "renamefld", "renamevar", "renameexp", "adddefer", "addcall", "revdecl", "revcases", "tmpreturn"} {
 		wg.Add(1)
 		go func(kind string) {
 			defer wg.Done()
